@@ -104,6 +104,9 @@ fn rand_comp(r: &mut Rng, alpha: &[char], min: usize, max: usize, first_alnum: b
 fn run(ctx: &Ctx, rep: &Report) {
     let names: Vec<String> = enumerate(&["a", "1", ".", "-", "_"], 3).into_iter().filter(|n| n.as_bytes()[0].is_ascii_alphanumeric()).collect();
     let comps = enumerate(&["a", "1", ".", "~", "^"], 2);
+    // releases: the same, plus the empty release (a tag every package has, but which may be empty text)
+    let mut releases = comps.clone();
+    releases.push(String::new());
     let epochs = ["", "0", "1", "12", "2147483647", "2147483648", "4294967295"];
     let arches = ["x", "x86_64", "noarch", "a1"];
     rep.count("names", names.len() as u64);
@@ -113,7 +116,7 @@ fn run(ctx: &Ctx, rep: &Report) {
     let mut local = BTreeMap::new();
     for e in epochs {
         for v in &comps {
-            for r in &comps {
+            for r in &releases {
                 rep.eval(1);
                 rep.nontrivial(hash_bytes(format!("E|{e}|{v}|{r}").as_bytes()));
                 *local.entry("evr_tuples".to_string()).or_insert(0u64) += 1;
@@ -134,7 +137,7 @@ fn run(ctx: &Ctx, rep: &Report) {
         let mut hs = Vec::new();
         for e in epochs {
             for v in &comps {
-                for r in &comps {
+                for r in &releases {
                     for a in arches {
                         cnt += 1;
                         let t = (n.as_str(), e, v.as_str(), r.as_str(), a);
